@@ -104,7 +104,8 @@ impl Cache for MemoryStore {
                     }
                 }
                 Entry::Vacant(vacant) => {
-                    record.header.cas = record.header.cas.saturating_add(1);
+                    // the next CAS; never 0, which means 'no CAS' on the wire
+                    record.header.cas = record.header.cas.wrapping_add(1).max(1);
                     record.header.timestamp = self.timer.timestamp();
                     let cas = record.header.cas;
                     vacant.insert(record);
